@@ -103,6 +103,12 @@ SK = {
         "user": {"Item": "rule"},
         "terms": {"semi": ";"},
     },
+    "split-rule": {
+        "text": "S: E T | T; E: 'a'; T: 'x' | 'y' E; E: 'b' 'c' | 'd';",
+        "prods": [("S", ("E", "T"), ("u", "S", 0)), ("S", ("T",), ("u", "S", 1)), ("E", ("a",), ("u", "E", 0)), ("T", ("x",), ("u", "T", 0)),
+                  ("T", ("y", "E"), ("u", "T", 1)), ("E", ("b", "c"), ("u", "E", 1)), ("E", ("d",), ("u", "E", 2))],
+        "user": {"S": "list", "E": "list", "T": "list"},
+    },
     # element actions returning falsy values (0, '', []) at first and later positions, with and without separator
     "falsy-elements": {
         "text": "S: Item+[comma] ';' Item* ; Item: 'a' | 'z' | 'e';\nterminals\ncomma: ',';",
@@ -218,10 +224,27 @@ def build(params, symbolic):
     twin = params.get("twin")
     spec = make_spec(sk)
     calls1, calls2, calls3, calls4 = [], [], [], []
-    p1 = Parser(Grammar.from_string(sk["text"]), actions=make_actions(sk, calls1))
-    p2 = Parser(Grammar.from_string(sk["text"]), build_tree=True, actions=make_actions(sk, calls2))
-    p2b = Parser(Grammar.from_string(sk["text"]), build_tree=True, call_actions_during_tree_build=True, actions=make_actions(sk, calls3))
-    p3 = GLRParser(Grammar.from_string(sk["text"]), actions=make_actions(sk, calls4))
+
+    def used_grammar():
+        """A Grammar object on which another parser with a LARGER action table was built before: the action set given to
+        a parser is what counts, nothing may be left over from an earlier parser on the same grammar."""
+        g = Grammar.from_string(sk["text"])
+        big = make_actions(sk, [])
+        stale = lambda _, n, *a: "<stale action of an earlier parser>"  # noqa
+        for sym in list(g.nonterminals.values()) + list(g.terminals.values()):
+            if sym.name in ("S'", "STOP", "EMPTY") or sym.name in big:
+                continue
+            if sym.name in g.nonterminals and len(sym.productions) and sym.action_name is None:
+                big[sym.name] = stale
+            elif sym.name in g.terminals:
+                big[sym.name] = stale
+        Parser(g, actions=big)
+        return g
+
+    p1 = Parser(used_grammar(), actions=make_actions(sk, calls1))
+    p2 = Parser(used_grammar(), build_tree=True, actions=make_actions(sk, calls2))
+    p2b = Parser(used_grammar(), build_tree=True, call_actions_during_tree_build=True, actions=make_actions(sk, calls3))
+    p3 = GLRParser(used_grammar(), actions=make_actions(sk, calls4))
     stats = {}
 
     def h(w: str):
